@@ -1564,7 +1564,53 @@ Section JoinCorollaries.
     eexists. eexists. split; [reflexivity|]. split; [reflexivity|].
     apply (in_map (fun s0 : stepT => (fst (fst s0), _)) steps s Hs).
   Qed.
+  (* the same at the level of sample IDs (what the operator hands to its consumer) *)
+  Lemma exec_is_pairing_any : one_side_unique on ml one_side_series ->
+    forall steps prev, (noT <= prev)%Z -> increasing V prev steps -> Forall good steps ->
+    exec_steps V dflt op b2v c return_bool (op_hidx on ml c lhs_series rhs_series) (op_lidx on ml c lhs_series rhs_series)
+               steps (new_table V dflt (length (op_series on ml incl c return_bool op_drops_name lhs_series rhs_series))) =
+    inl (map (fun s : stepT => (fst (fst s),
+                                pure_step V op b2v c return_bool (op_hidx on ml c lhs_series rhs_series)
+                                          (op_lidx on ml c lhs_series rhs_series) (snd (fst s)) (snd s))) steps).
+  Proof.
+    unfold one_side_series. intros HA steps prev Hp Hi Hg.
+    apply (exec_steps_pure V dflt op b2v c return_bool _ _ steps _ prev Hp).
+    - apply new_table_tags. lia.
+    - unfold new_table. rewrite repeat_length. destruct (is_one_to_many c) eqn:Hc.
+      + apply (steps_ok_of_good_otm V dflt on ml incl c return_bool op_drops_name lhs_series rhs_series Hc HA); assumption.
+      + apply (steps_ok_of_good V dflt on ml incl c return_bool op_drops_name lhs_series rhs_series Hc HA); assumption.
+  Qed.
+
+  (* every emitted sample ID names an output series *)
+  Lemma pure_step_ids_in_range (t : tbl V) lhs rhs :
+    step_ok V c (op_hidx on ml c lhs_series rhs_series) (op_lidx on ml c lhs_series rhs_series) t lhs rhs ->
+    forall ov, In ov (pure_step V op b2v c return_bool (op_hidx on ml c lhs_series rhs_series)
+                                (op_lidx on ml c lhs_series rhs_series) lhs rhs) -> fst ov < length t.
+  Proof.
+    intros [_ [Hr _]] ov Hin. unfold pure_step in Hin. apply in_flat_map in Hin. destruct Hin as [rs [_ Hin]].
+    apply in_flat_map in Hin. destruct Hin as [o [_ Hin]].
+    destruct (find (feeds V o (lhs_outs c (op_hidx on ml c lhs_series rhs_series) (op_lidx on ml c lhs_series rhs_series))) lhs) as [ls|] eqn:Ef; [|destruct Hin].
+    apply find_some in Ef. destruct Ef as [Hls Hf]. unfold feeds in Hf. apply existsb_eqb_In in Hf.
+    assert (fst ov = o).
+    { unfold emit in Hin. destruct return_bool; [destruct Hin as [<-|[]]; reflexivity|].
+      destruct (snd (op (snd ls) (snd rs))); [destruct Hin as [<-|[]]; reflexivity|destruct Hin]. }
+    subst o. apply Hr. unfold all_outs. apply in_flat_map. exists ls. split; assumption.
+  Qed.
+
+  Lemma step_ok_any : one_side_unique on ml one_side_series -> forall s, good s ->
+    step_ok V c (op_hidx on ml c lhs_series rhs_series) (op_lidx on ml c lhs_series rhs_series)
+            (new_table V dflt (length (op_series on ml incl c return_bool op_drops_name lhs_series rhs_series)))
+            (snd (fst s)) (snd s).
+  Proof.
+    unfold one_side_series. intros HA [[ts lhs] rhs] [G1 [G2 [G3 G4]]]. simpl in *.
+    destruct (is_one_to_many c) eqn:Hc.
+    - apply (operator_step_ok_otm V on ml incl c return_bool op_drops_name lhs_series rhs_series Hc lhs rhs G1 G3 G4 HA).
+      unfold new_table. apply repeat_length.
+    - apply (operator_step_ok V on ml incl c return_bool op_drops_name lhs_series rhs_series Hc lhs rhs G2 G3 G4 HA).
+      unfold new_table. apply repeat_length.
+  Qed.
 End JoinCorollaries.
+
 
 
 (* ---- C11: the reference step does not depend on the order of its inputs ------- *)
@@ -1711,3 +1757,146 @@ Section JoinOrder.
   Qed.
 End JoinOrder.
 
+
+(* ---- the reference step under permutations of its inputs, with multiplicities --- *)
+
+Section RefPerm.
+  Variable V : Type.
+  Variable op : V -> V -> V * bool.
+  Variable b2v : bool -> V.
+  Variable sigf : labels -> labels.
+  Variable result_metric : labels -> labels -> labels.
+  Variable c : card.
+  Variable return_bool : bool.
+
+  Notation sig_eq := (sig_eq sigf).
+  Notation has_dup_sig := (has_dup_sig V sigf).
+  Notation ref_many := (ref_many V op b2v sigf result_metric c return_bool).
+  Notation ref_step := (ref_step V op b2v sigf result_metric c return_bool).
+  Notation contribution := (contribution V op b2v sigf result_metric c return_bool).
+  Notation ref_res := (ref_res V op c).
+
+  (* signature and result metric of what a "many"-side sample emits *)
+  Definition key_of (one : list (labels * V)) (ls : labels * V) : list (labels * labels) :=
+    match find (fun rs => sig_eq (fst ls) (fst rs)) one with
+    | None => []
+    | Some rs => if negb return_bool && negb (snd (ref_res ls rs)) then []
+                 else [(sigf (fst ls), result_metric (fst ls) (fst rs))]
+    end.
+
+  Definition collide (a b : labels * labels) : bool :=
+    if is_one_to_one c then labels_eqb (fst a) (fst b)
+    else labels_eqb (fst a) (fst b) && labels_eqb (snd a) (snd b).
+
+  Lemma collide_sym a b : collide a b = collide b a.
+  Proof.
+    assert (S : forall x y, labels_eqb x y = labels_eqb y x).
+    { intros x y. destruct (labels_eqb x y) eqn:E1, (labels_eqb y x) eqn:E2; try reflexivity.
+      - apply labels_eqb_eq in E1. subst. assert (labels_eqb y y = true) by (apply labels_eqb_eq; reflexivity). congruence.
+      - apply labels_eqb_eq in E2. subst. assert (labels_eqb x x = true) by (apply labels_eqb_eq; reflexivity). congruence. }
+    unfold collide. destruct (is_one_to_one c); rewrite ?(S (fst a)), ?(S (snd a)); reflexivity.
+  Qed.
+
+  Fixpoint pairwise_nc (l : list (labels * labels)) : Prop :=
+    match l with
+    | [] => True
+    | k :: r => (forall k', In k' r -> collide k k' = false) /\ pairwise_nc r
+    end.
+
+  Lemma pairwise_nc_perm l l' : Permutation l l' -> pairwise_nc l -> pairwise_nc l'.
+  Proof.
+    induction 1 as [|x l l' HP IH|x y l|l l' l'' _ IH1 _ IH2]; simpl; intros H.
+    - exact I.
+    - destruct H as [H1 H2]. split; [|apply IH; assumption].
+      intros k' Hk'. apply H1. eapply Permutation_in; [apply Permutation_sym; exact HP|assumption].
+    - destruct H as [Hy [Hx Hl]]. split; [|split].
+      + intros k' [<-|Hk']; [rewrite collide_sym; apply Hy; left; reflexivity|apply Hx; assumption].
+      + intros k' Hk'. apply Hy. right. assumption.
+      + assumption.
+    - apply IH2, IH1, H.
+  Qed.
+
+  (* the duplicate test of ref_many is membership of a colliding key *)
+  Lemma dup_test (seen : list (labels * labels)) s m :
+    (if is_one_to_one c
+     then existsb (fun sm => labels_eqb (fst sm) s) seen
+     else existsb (fun sm => labels_eqb (fst sm) s && labels_eqb (snd sm) m) seen) =
+    existsb (fun sm => collide sm (s, m)) seen.
+  Proof. unfold collide. simpl. destruct (is_one_to_one c); reflexivity. Qed.
+
+  (* success of the reference = no two emitted samples collide (and none with what was seen) *)
+  Lemma ref_many_success one : forall many seen, pairwise_nc seen ->
+    ((exists out, ref_many many one seen = Some out) <-> pairwise_nc (flat_map (key_of one) many ++ seen)).
+  Proof.
+    induction many as [|ls many IH]; intros seen Hseen; simpl.
+    - split; [intros _; assumption|intros _; eexists; reflexivity].
+    - unfold key_of at 1. destruct (find (fun rs => sig_eq (fst ls) (fst rs)) one) as [rs|] eqn:Ef; [|apply IH; assumption].
+      fold (ref_res ls rs). destruct (negb return_bool && negb (snd (ref_res ls rs))) eqn:Eskip; [apply IH; assumption|].
+      rewrite dup_test. simpl app.
+      set (k := (sigf (fst ls), result_metric (fst ls) (fst rs))).
+      destruct (existsb (fun sm => collide sm k) seen) eqn:Edup.
+      + split; [intros [out H]; discriminate|].
+        intros [Hk _]. exfalso. apply existsb_exists in Edup. destruct Edup as [sm [Hsm Hc]].
+        rewrite collide_sym in Hc. rewrite (Hk sm) in Hc; [discriminate|apply in_or_app; right; assumption].
+      + assert (Hk_seen : forall sm, In sm seen -> collide k sm = false).
+        { intros sm Hsm. rewrite collide_sym. destruct (collide sm k) eqn:E; [|reflexivity].
+          assert (existsb (fun sm0 => collide sm0 k) seen = true) by (apply existsb_exists; exists sm; auto). congruence. }
+        assert (Hseen' : pairwise_nc (k :: seen)) by (split; assumption).
+        specialize (IH (k :: seen) Hseen').
+        assert (HP : Permutation (flat_map (key_of one) many ++ k :: seen) (k :: flat_map (key_of one) many ++ seen))
+          by (apply Permutation_sym, Permutation_middle).
+        split.
+        * intros [out H]. destruct (ref_many many one (k :: seen)) as [out'|] eqn:Er; [|discriminate].
+          apply (pairwise_nc_perm _ _ HP). apply IH. eexists; reflexivity.
+        * intros H. assert (H' : pairwise_nc (flat_map (key_of one) many ++ k :: seen))
+            by (apply (pairwise_nc_perm _ _ (Permutation_sym HP)); exact H).
+          apply IH in H'. destruct H' as [out' Er]. rewrite Er. simpl. eexists; reflexivity.
+  Qed.
+
+  Lemma key_of_ext one one' ls : find (fun rs => sig_eq (fst ls) (fst rs)) one = find (fun rs => sig_eq (fst ls) (fst rs)) one' ->
+    key_of one ls = key_of one' ls /\ contribution one ls = contribution one' ls.
+  Proof. intros H. unfold key_of, BinProofs.contribution. rewrite H. split; reflexivity. Qed.
+
+  (* without duplicate signatures, [find] does not depend on the order of the "one" side *)
+  Lemma find_perm (one one' : list (labels * V)) m : Permutation one one' -> has_dup_sig one = false ->
+    find (fun rs => sig_eq m (fst rs)) one = find (fun rs => sig_eq m (fst rs)) one'.
+  Proof.
+    intros HP Hd. assert (Hd' : has_dup_sig one' = false) by (rewrite <- (has_dup_sig_perm V sigf _ _ HP); assumption).
+    destruct (find (fun rs => sig_eq m (fst rs)) one) as [rs|] eqn:Ef.
+    - apply find_some in Ef. destruct Ef as [Hin Hm]. symmetry.
+      apply (find_unique_match V sigf); [assumption|eapply Permutation_in; eauto|assumption].
+    - destruct (find (fun rs => sig_eq m (fst rs)) one') as [rs'|] eqn:Ef'; [|reflexivity].
+      apply find_some in Ef'. destruct Ef' as [Hin Hm].
+      pose proof (find_none _ _ Ef rs' (Permutation_in _ (Permutation_sym HP) Hin)) as Hn. simpl in Hn. congruence.
+  Qed.
+
+  (* The reference step on permuted inputs: it succeeds iff it succeeded, and the
+     results are permutations of each other. *)
+  Theorem ref_step_permutation lhs rhs lhs' rhs' out :
+    Permutation lhs lhs' -> Permutation rhs rhs' -> ref_step lhs rhs = Some out ->
+    exists out', ref_step lhs' rhs' = Some out' /\ Permutation out out'.
+  Proof.
+    intros Pl Pr H. unfold Bin.ref_step in *.
+    set (many := if is_one_to_many c then rhs else lhs) in *.
+    set (one := if is_one_to_many c then lhs else rhs) in *.
+    set (many' := if is_one_to_many c then rhs' else lhs').
+    set (one' := if is_one_to_many c then lhs' else rhs').
+    assert (Pm : Permutation many many') by (unfold many, many'; destruct (is_one_to_many c); assumption).
+    assert (Po : Permutation one one') by (unfold one, one'; destruct (is_one_to_many c); assumption).
+    destruct (has_dup_sig one) eqn:Hd; [discriminate|].
+    rewrite <- (has_dup_sig_perm V sigf _ _ Po), Hd.
+    assert (Hext : forall ls, key_of one ls = key_of one' ls /\ contribution one ls = contribution one' ls).
+    { intros ls. apply key_of_ext. apply find_perm; assumption. }
+    assert (Hok : pairwise_nc (flat_map (key_of one) many ++ [])) by (apply (ref_many_success one many [] I); eexists; exact H).
+    assert (Hok' : pairwise_nc (flat_map (key_of one') many' ++ [])).
+    { rewrite app_nil_r in *. apply (pairwise_nc_perm (flat_map (key_of one) many)); [|assumption].
+      erewrite (flat_map_ext_in (key_of one) (key_of one')) by (intros ls _; apply Hext).
+      apply Permutation_flat_map. assumption. }
+    apply (ref_many_success one' many' [] I) in Hok'. destruct Hok' as [out' H'].
+    exists out'. split; [assumption|].
+    rewrite (ref_many_list V op b2v sigf result_metric c return_bool _ _ _ _ H).
+    rewrite (ref_many_list V op b2v sigf result_metric c return_bool _ _ _ _ H').
+    erewrite (flat_map_ext_in (contribution one) (contribution one')) by (intros ls _; apply Hext).
+    apply Permutation_flat_map. assumption.
+  Qed.
+End RefPerm.
